@@ -33,7 +33,12 @@ def main():
     os.rmdir(wt)
     out = {"seed": str(seed), "property": meta.get("property"), "summary": meta.get("summary")}
     try:
-        r = run(f"git -C /repo worktree add --detach {wt} HEAD -q")
+        for attempt in range(8):      # several seedtests may add worktrees at once: git's own lock can be busy
+            r = run(f"git -C /repo worktree add --detach {wt} HEAD -q")
+            if r.returncode == 0:
+                break
+            import time
+            time.sleep(0.5 + attempt)
         env0 = f"PYTHONPATH={wt}/src"
         d0 = run(f"cd {wt} && {env0} /venv/bin/python {seed}/demo.py", timeout=900)
         out["demo_unpatched"] = d0.returncode
@@ -54,7 +59,7 @@ def main():
                 c = run(f"cd {VERIF} && VERIF_REPO={wt} VERIF_SEED={seed_no} ./check {cid}", timeout=3600)
                 lines = [x for x in c.stdout.splitlines() if x.startswith(("VIOLATION", "KNOWN-FINDING")) or "->" in x]
                 out["checks"][cid] = {"exit": c.returncode, "lines": lines[-4:]}
-                rp = VERIF / "replays" / f"{cid}-quick-seed{seed_no}.json"
+                rp = Path(os.environ.get("VERIF_OUT") or (VERIF / "replays")) / f"{cid}-quick-seed{seed_no}.json"
                 if c.returncode == 1 and rp.exists():
                     try:
                         rj = json.loads(rp.read_text())
